@@ -140,7 +140,7 @@ pub fn ref_matrix(model: RefModel) -> Mat {
 }
 
 /// operand word indices of the scrambler: (first, second or same)
-fn scrambler_operands(kind: Kind) -> (usize, Option<usize>) {
+pub fn scrambler_operands(kind: Kind) -> (usize, Option<usize>) {
     match kind {
         Kind::Xoroshiro64Star | Kind::Xoroshiro64StarStar => (0, None),
         Kind::Xoroshiro128Plus | Kind::Xoroshiro128PlusPlus => (0, Some(1)),
